@@ -500,6 +500,8 @@ fn gen(tier: &str, seed: u64, out: &mut dyn FnMut(String)) {
     robust(thorough, seed, out, &mut late);
     // ---- part 2: huge arrays, colliding shapes (A, B, A), value fingerprints, refused-then-valid, exact lengths, aliasing, ranks 4..6
     robust2(thorough, seed, out, &mut late);
+    // ---- part 3: values related in a way random data never is — look-alike pairs for the substring operations, long common stems for the comparisons
+    robust3(thorough, out, &mut late);
 
     // ---- replace, last (on the pinned tree some of these never return): alphabet {a,b,-}
     {
@@ -874,6 +876,183 @@ fn robust2(thorough: bool, seed: u64, out: &mut dyn FnMut(String), late: &mut Ve
         late.push(format!("replace {a} {b} 1:{} none", hex("+")));
     }
     let _ = seed;
+}
+
+// ------------------------------------------------------------------ robustness streams, part 3 (FRAMEWORK.md): values related in a way random data never is
+
+/// Thue–Morse word of length 2^k over (x, y).  `tm(k, y, x)` is its letter-swapped twin.  For every ODD base b the polynomial hashes
+/// Σ s[i]·b^(n-1-i) of the two differ by (x-y)·Π_{i<k}(b^(2^i) - 1), which 2^(1+3+4+…+(k+1)) divides: equal mod 2^32 from k = 7 (128 letters),
+/// equal mod 2^64 from k = 10 (1024 letters) — for 31, 33, 37, 131, 257, 65599, 1000003, … alike.
+fn tm(k: usize, x: char, y: char) -> String { (0..1usize << k).map(|i| if i.count_ones() % 2 == 0 { x } else { y }).collect() }
+
+/// deterministic pseudo-random lower-case letters (seed-independent: the cases are the same in every run)
+fn letters(tag: u64, n: usize) -> String {
+    let mut s = tag.wrapping_mul(0x9E3779B97F4A7C15) ^ 0xD1B54A32D192ED03;
+    (0..n).map(|_| { s ^= s << 13; s ^= s >> 7; s ^= s << 17; (b'a' + ((s >> 33) % 26) as u8) as char }).collect()
+}
+fn bump(c: u8) -> u8 { match c { b'z' => b'a', b'Z' => b'A', b'9' => b'0', b' ' => b'-', c if c.is_ascii_alphanumeric() => c + 1, _ => b'a' } }
+/// `s` with the byte at `pos` replaced by its successor
+fn with_bump(s: &str, pos: usize) -> String { let mut b = s.as_bytes().to_vec(); b[pos] = bump(b[pos]); String::from_utf8(b).unwrap() }
+
+/// weak 32-bit (or narrower) string hashes in common use: polynomial base/modulus pairs of competitive-programming and textbook
+/// Rabin–Karp code (with the byte itself and with `c - 'a' + 1` as digit), Java's hashCode, djb2, sdbm, FNV-1 / FNV-1a, Adler-32, CRC-32,
+/// a 64-bit polynomial folded to 32 bits.  A birthday search over 10-letter words finds a colliding pair for each of them.
+fn weak_hashes() -> Vec<(&'static str, Box<dyn Fn(&[u8]) -> u32>)> {
+    fn poly(base: u64, m: u64, off: bool) -> Box<dyn Fn(&[u8]) -> u32> {
+        Box::new(move |s| s.iter().fold(0u64, |h, &c| (h * base + if off { (c - b'a' + 1) as u64 } else { c as u64 }) % m) as u32)
+    }
+    fn wrap32(init: u32, base: u32) -> Box<dyn Fn(&[u8]) -> u32> { Box::new(move |s| s.iter().fold(init, |h, &c| h.wrapping_mul(base).wrapping_add(c as u32))) }
+    vec![("31 mod 1e9+7", poly(31, 1_000_000_007, false)), ("131 mod 1e9+7", poly(131, 1_000_000_007, false)), ("257 mod 1e9+9", poly(257, 1_000_000_009, false)),
+         ("256 mod 1e9+7", poly(256, 1_000_000_007, false)), ("31 mod 998244353", poly(31, 998_244_353, false)), ("131 mod 2^31-1", poly(131, 2_147_483_647, false)),
+         ("137 mod 1e9+7", poly(137, 1_000_000_007, false)), ("911382323 mod 972663749", poly(911_382_323, 972_663_749, false)), ("256 mod 101", poly(256, 101, false)),
+         ("31 mod 1e9+9, a=1", poly(31, 1_000_000_009, true)), ("53 mod 1e9+9, a=1", poly(53, 1_000_000_009, true)), ("29 mod 1e9+7, a=1", poly(29, 1_000_000_007, true)),
+         ("java 31 u32", wrap32(0, 31)), ("djb2", wrap32(5381, 33)), ("sdbm 65599", wrap32(0, 65599)), ("131 u32", wrap32(0, 131)), ("1000003 u32", wrap32(0, 1_000_003)),
+         ("fnv1a-32", Box::new(|s| s.iter().fold(0x811C9DC5u32, |h, &c| (h ^ c as u32).wrapping_mul(16_777_619)))),
+         ("fnv1-32", Box::new(|s| s.iter().fold(0x811C9DC5u32, |h, &c| h.wrapping_mul(16_777_619) ^ c as u32))),
+         ("adler32", Box::new(|s| { let (mut a, mut b) = (1u32, 0u32); for &c in s { a = (a + c as u32) % 65521; b = (b + a) % 65521; } (b << 16) | a })),
+         ("crc32", Box::new(|s| { let mut c = !0u32; for &b in s { c ^= b as u32; for _ in 0..8 { c = if c & 1 != 0 { (c >> 1) ^ 0xEDB88320 } else { c >> 1 }; } } !c })),
+         ("131 u64 folded", Box::new(|s| { let h = s.iter().fold(0u64, |h, &c| h.wrapping_mul(131).wrapping_add(c as u64)); (h ^ (h >> 32)) as u32 })),
+         ("rotate-xor", Box::new(|s| s.iter().fold(0u32, |h, &c| h.rotate_left(5) ^ c as u32)))]
+}
+
+/// for every weak hash one pair (thorough: two) of different 10-letter words with the same hash value
+fn birthday_pairs(per_hash: usize) -> Vec<(String, String)> {
+    let word = |i: u64| -> Vec<u8> { let mut x = i.wrapping_mul(0x9E3779B97F4A7C15).wrapping_add(0x632BE59BD9B4E019); x ^= x >> 29; x = x.wrapping_mul(0xBF58476D1CE4E5B9); x ^= x >> 32;
+        (0..10).map(|_| { let c = b'a' + (x % 26) as u8; x /= 26; c }).collect() };
+    let mut out = vec![];
+    for (_, h) in weak_hashes() {
+        let mut seen: std::collections::HashMap<u32, u64> = std::collections::HashMap::with_capacity(1 << 18);
+        let mut found = 0usize;
+        for i in 0..400_000u64 {
+            let w = word(i);
+            match seen.insert(h(&w), i) {
+                Some(j) if word(j) != w => { out.push((String::from_utf8(word(j)).unwrap(), String::from_utf8(w).unwrap())); found += 1; if found >= per_hash { break } }
+                _ => {}
+            }
+        }
+    }
+    out
+}
+
+/// adversarial (pattern, look-alike) pairs of equal length: every pair is DIFFERENT text that a rolling / sampled / symmetric hash cannot tell apart
+fn adversarial_pairs(thorough: bool) -> Vec<Vec<(String, String)>> {
+    let mut groups: Vec<Vec<(String, String)>> = vec![];
+    // (a) Thue–Morse words of length 2^k, k = 1..11, against their letter-swapped twin — several alphabets (letter distance 1, 25, 32, 13; digits; a blank)
+    let alphabets: &[(char, char)] = if thorough { &[('a', 'b'), ('0', '1'), ('A', 'a'), ('a', 'z'), ('x', '-'), ('N', 'A'), ('a', ' '), ('b', 'a')] } else { &[('a', 'b'), ('0', '1'), ('A', 'a'), ('x', '-')] };
+    for (ai, &(x, y)) in alphabets.iter().enumerate() {
+        let kmax = if thorough || ai == 0 { 11 } else { 10 };
+        groups.push((1..=kmax).map(|k| (tm(k, x, y), tm(k, y, x))).collect());
+        if thorough || ai == 0 { groups.push((1..=kmax).rev().map(|k| (tm(k, y, x), tm(k, x, y))).collect()); }
+    }
+    // … and inside a common frame (equal first and last bytes: a hash match "confirmed" by looking at the ends only)
+    groups.push([7usize, 8, 9, 10, 11].iter().map(|&k| (format!("xyz{}zyx", tm(k, 'a', 'b')), format!("xyz{}zyx", tm(k, 'b', 'a')))).collect());
+    // (b) equal except in ONE position — first, second, middle, 9th from the end, last but one, last — lengths around 32 / 64 / 256 / 1024 / 2048;
+    //     random letters, the period-2 word, one repeated letter (even bases mod 2^64 only see the last 64 / 8 bytes, sampled hashes only some bytes)
+    let lens: &[usize] = if thorough { &[31, 32, 33, 63, 64, 65, 100, 255, 256, 257, 1024, 1025, 2048] } else { &[33, 65, 256, 1024] };
+    for kind in 0..3usize {
+        let mut g = vec![];
+        for (li, &l) in lens.iter().enumerate() {
+            let base: String = match kind { 0 => letters(l as u64, l), 1 => "ab".repeat(l / 2 + 1)[..l].to_string(), _ => "a".repeat(l) };
+            let all = [0usize, 1, l / 2, l - 9, l - 2, l - 1];
+            let pos: Vec<usize> = if thorough { all.to_vec() } else { vec![all[(li + kind) % 2], all[2 + (li + kind) % 2], all[4 + (li + kind + 1) % 2]] };
+            for p in pos { g.push((base.clone(), with_bump(&base, p))); }
+        }
+        if !thorough && kind == 2 { g.truncate(6); }
+        for c in g.chunks(12) { groups.push(c.to_vec()); }
+    }
+    // (c) anagram windows (equal byte multiset => equal sum, xor, product and every other symmetric fingerprint): reversed, rotated, one late
+    //     transposition; and equal sum + equal xor without being an anagram ("ef" / "dg")
+    {
+        let mut g = vec![];
+        for &l in if thorough { &[2usize, 3, 4, 5, 8, 9, 16, 17, 33, 64, 65, 256, 1024][..] } else { &[2usize, 3, 4, 8, 16, 33, 64, 256][..] } {
+            let w = letters(1000 + l as u64, l);
+            let b = w.as_bytes();
+            let rev: String = w.chars().rev().collect();
+            let rot = format!("{}{}", &w[1..], &w[..1]);
+            let mut sw = b.to_vec(); let i = (0..l - 1).rev().find(|&i| sw[i] != sw[i + 1]); if let Some(i) = i { sw.swap(i, i + 1); }
+            for v in [rev, rot, String::from_utf8(sw).unwrap()] { if v != w { g.push((w.clone(), v)); } }
+        }
+        for n in [1usize, 4, 16, 100] { g.push(("ef".repeat(n), "dg".repeat(n))); g.push(("ad".repeat(n), "bc".repeat(n))); g.push((format!("ef{}", "q".repeat(n)), format!("dg{}", "q".repeat(n)))); }
+        for c in g.chunks(12) { groups.push(c.to_vec()); }
+    }
+    // (d) birthday collisions of 23 weak 32-bit hashes
+    for c in birthday_pairs(if thorough { 2 } else { 1 }).chunks(12) { groups.push(c.to_vec()); }
+    groups
+}
+
+/// the look-alike `q` (and the pattern `p` itself) in eight surroundings; the pattern of every case is `p`
+fn surround(c: usize, p: &str, q: &str) -> String {
+    match c {
+        0 => q.to_string(),
+        1 => format!("{q}{p}"),
+        2 => format!("{p}{q}{p}"),
+        3 => format!("x{q}yz{p}{q}"),
+        4 => format!("{p}{q}"),
+        5 => format!("{}{q}{}", &p[..p.len() - 1], &p[1..]),
+        6 => format!("{q}{q}{}", &p[..p.len() / 2]),
+        _ => p.to_string(),
+    }
+}
+
+const SUB2_OPS: &[&str] = &["count", "find", "rfind", "index", "rindex", "partition", "rpartition", "starts_with", "ends_with", "equal", "not_equal", "less", "greater_equal"];
+const CMP_OPS: &[&str] = &["equal", "not_equal", "greater_equal", "less_equal", "greater", "less", "starts_with", "ends_with"];
+const CMP_NAMES: &[&str] = &["==", "!=", ">", "<", ">=", "<=", "GREATER", "less_equal"];
+
+fn robust3(thorough: bool, out: &mut dyn FnMut(String), late: &mut Vec<String>) {
+    // ---- (13a) substring operations against look-alikes: count / find / rfind / index / rindex / partition / rpartition / starts_with / ends_with /
+    //      split / rsplit / replace (and equality, should it ever go through a fingerprint) — every operation sees every kind of pair in every surrounding;
+    //      quick tier: the Thue–Morse and one-position groups in full, of every second anagram / birthday group a rotating third of (operation, surrounding)
+    for (gi, g) in adversarial_pairs(thorough).iter().enumerate() {
+        let full = thorough || gi < 9 || gi % 2 == 0;
+        let n = g.len();
+        let shape: Vec<usize> = if n % 2 == 0 && n >= 4 && gi % 2 == 1 { vec![2, n / 2] } else { vec![n] };
+        let b = warr(&shape, |i| hex(&g[i].0));
+        for c in 0..8usize {
+            let a = warr(&shape, |i| hex(&surround(c, &g[i].0, &g[i].1)));
+            let mut j = 0usize;
+            let mut want = |always: bool| -> bool { j += 1; full || always || (j + c + gi) % 3 == 0 };
+            for op in SUB2_OPS { if want(false) { out(format!("{op} {a} {b}")); } }
+            for op in ["split", "rsplit"] {
+                if want(false) { out(format!("{op} {a} {b} none")); }
+                if want(false) { out(format!("{op} {a} {b} 1:{}", 1 + (c + gi) % 3)); }
+            }
+            if want(false) { late.push(format!("replace {a} {b} 1:{} none", hex("+"))); }
+            if want(false) { late.push(format!("replace {a} {b} 1:{} 1", hex(""))); }
+            if want(false) { out(format!("compare {a} {b} {}", hex(CMP_NAMES[(c + gi) % CMP_NAMES.len()]))); }
+        }
+        // the look-alike AS the pattern, one scalar-like pattern against the whole array, and the array against itself in the other order
+        if full || gi % 3 == 0 {
+            let whole = warr(&shape, |i| hex(&surround(3, &g[i].0, &g[i].1)));
+            let last = &g[n - 1];
+            for (j, op) in SUB2_OPS.iter().take(9).enumerate() { if full || j % 2 == gi % 2 { out(format!("{op} {whole} 1:{}", hex(&last.1))); out(format!("{op} {} {}", warr(&shape, |i| hex(&g[i].1)), b)); } }
+        }
+    }
+    // ---- (13b) long common stems (31 … 2048 bytes) before the first difference: the six comparisons (and compare by name), starts_with / ends_with;
+    //      every ordered pair of endings — differing in the byte right after the stem, one the prefix of the other, a shorter one that is greater,
+    //      trailing blanks — as `stem + ending`, as `stem + ending + common tail`, and mirrored (`ending + stem`: a long common SUFFIX)
+    {
+        let slens: &[usize] = if thorough { &[31, 32, 33, 63, 64, 65, 127, 128, 129, 255, 256, 257, 1023, 1024, 1025, 2048] } else { &[32, 33, 64, 65, 256, 1024] };
+        for (si, &sl) in slens.iter().enumerate() {
+            for kind in 0..4usize {
+                if !thorough && sl >= 256 && kind != 0 && kind != 3 { continue }     // quick: long stems with random letters / blanks inside only
+                let stem: String = match kind { 0 => letters(77 + sl as u64, sl), 1 => "a".repeat(sl), 2 => "ab".repeat(sl / 2 + 1)[..sl].to_string(),
+                    _ => { let mut s = letters(78 + sl as u64, sl).into_bytes(); for i in (3..sl.saturating_sub(1)).step_by(7) { s[i] = b' '; } String::from_utf8(s).unwrap() } };
+                let ends: &[&str] = if sl >= 256 && !thorough { &["", "b", "ab", "b ", "ac"] } else { &["", "a", "b", "ab", "b ", "ba", "aab", "a  ", "B"] };
+                let (mut l, mut r) = (vec![], vec![]);
+                for x in ends { for y in ends { l.push(*x); r.push(*y); } }
+                let m = l.len();
+                let shape: Vec<usize> = if m == 25 { vec![5, 5] } else if m == 81 && kind % 2 == 0 { vec![9, 9] } else { vec![m] };
+                let layouts: Vec<Box<dyn Fn(&str) -> String + '_>> = vec![Box::new(|e| format!("{stem}{e}")), Box::new(|e| format!("{stem}{e}{}", &stem[..stem.len().min(40)])), Box::new(|e| format!("{e}{stem}"))];
+                for (li, lay) in layouts.iter().enumerate() {
+                    if !thorough && sl >= 256 && li == 1 && kind != 0 { continue }
+                    let (a, b) = (warr(&shape, |k| hex(&lay(l[k]))), warr(&shape, |k| hex(&lay(r[k]))));
+                    for (j, op) in CMP_OPS.iter().enumerate() { if thorough || sl < 256 || li == 0 || (j + si + kind) % 2 == 0 { out(format!("{op} {a} {b}")); } }
+                    out(format!("compare {a} {b} {}", hex(CMP_NAMES[(si + kind + li) % CMP_NAMES.len()])));
+                    if thorough { out(format!("compare {a} {b} {}", hex(CMP_NAMES[(si + kind + li + 3) % CMP_NAMES.len()]))); }
+                }
+            }
+        }
+    }
 }
 
 /// would the pinned (unrepaired) loop run forever on this input? (only used to ORDER the cases: those go last)
